@@ -49,6 +49,15 @@ func (q *QueryRangeController) QueryRange(w http.ResponseWriter, r *http.Request
 		PromError(400, err.Error(), w)
 		return
 	}
+	if int64(step*1000) <= 0 {
+		PromError(400,
+			"zero or negative query resolution step widths are not accepted. Try a positive integer", w)
+		return
+	}
+	if end < start {
+		PromError(400, "end timestamp must not be before start time", w)
+		return
+	}
 	ch, err := q.QueryRangeService.QueryRange(internalCtx, query, int64(start), int64(end), int64(step*1000),
 		limit, direction == "forward")
 	if err != nil {
@@ -136,6 +145,11 @@ func (q *QueryRangeController) Query(w http.ResponseWriter, r *http.Request) {
 	}
 	if err != nil {
 		PromError(400, err.Error(), w)
+		return
+	}
+	if int64(step*1000) <= 0 {
+		PromError(400,
+			"zero or negative query resolution step widths are not accepted. Try a positive integer", w)
 		return
 	}
 	ch, err := q.QueryRangeService.QueryInstant(internalCtx, query, iTime, int64(step*1000),
